@@ -32,6 +32,7 @@ func runC01(c *Ctx) {
 	indexGuards(c, "R6")
 	payloadUnderTag(c, "R7")
 	cliExitDiscipline(c, "R8")
+	c.shared("R9", "C08/R3", "runaway recursion ends in an error, not in a Go stack overflow: every frame pushed on another one is one deeper, and the depth test precedes the push", keyHas("depth"), func(s *Ctx) { c08R3(s, discoverFrameModel(s.P), "R3") })
 }
 
 // exportedLangEntryPoints: exported package-level functions and exported methods of exported
